@@ -1,9 +1,15 @@
 #!/usr/bin/env python3
-"""Collates /verif/seeded/*/meta.json into a markdown table (for DESIGN.md section 9.6)."""
+"""Collates /verif/seeded/*/meta.json (and tools/seed_ideas.json for seeds whose workspace was lost) into the markdown table
+of DESIGN.md section 9.6; with --write the table between the SEEDED_TABLE markers of DESIGN.md is replaced."""
 import json
+import re
+import sys
 from pathlib import Path
-rows = []
-for d in sorted(Path('/verif/seeded').iterdir()):
+
+V = Path(__file__).resolve().parents[1]
+ideas = json.loads((V / 'tools/seed_ideas.json').read_text())
+rows = {}
+for d in sorted((V / 'seeded').iterdir()):
     m = d / 'meta.json'
     if not m.exists():
         continue
@@ -12,9 +18,20 @@ for d in sorted(Path('/verif/seeded').iterdir()):
     c = j['checks'].get(pid, {})
     rep = c.get('replay') or {}
     how = rep.get('clause') or ('correspondence: ' + rep['divergence'] if rep.get('divergence') else ('proof: ' + '; '.join(rep.get('broken', []))[:60] if rep.get('broken') else '—'))
-    rows.append((d.name, pid, j.get('idea', ''), j.get('needs', ''), 'yes' if j.get('confirmed') else 'NO', j.get('first_attempt', ''),
-                 'exit %s' % c.get('exit'), how))
-print('| seed | property | change | needs to manifest | confirmed | first run of the check | now | caught by |')
-print('|---|---|---|---|---|---|---|---|')
-for r in rows:
-    print('| ' + ' | '.join(str(x) for x in r) + ' |')
+    rows[d.name] = (d.name, pid, j.get('idea', ''), j.get('needs', ''), 'yes' if j.get('confirmed') else 'NO', j.get('first_attempt', ''),
+                    'exit %s' % c.get('exit'), how)
+for name, v in ideas.items():
+    if name not in rows and re.fullmatch(r'C\d\d_\d+', name):
+        rows[name] = (name, name[:3], v[0], v[1], 'yes (workspace lost, see text)', v[2] if len(v) > 2 else '', '—', '—')
+out = ['| seed | property | change | needs to manifest | confirmed | first run of the check | now | caught by |', '|---|---|---|---|---|---|---|---|']
+for k in sorted(rows, key=lambda s: (s[:3], int(s.split('_')[1]))):
+    out.append('| ' + ' | '.join(str(x).replace('|', '\\|').replace('\n', ' ') for x in rows[k]) + ' |')
+text = '\n'.join(out)
+if '--write' in sys.argv:
+    p = V / 'DESIGN.md'
+    s = p.read_text()
+    a, b = s.index('<!-- SEEDED_TABLE_BEGIN -->'), s.index('<!-- SEEDED_TABLE_END -->')
+    p.write_text(s[:a] + '<!-- SEEDED_TABLE_BEGIN -->\n' + text + '\n' + s[b:])
+    print(len(out) - 2, 'rows written')
+else:
+    print(text)
